@@ -7,6 +7,7 @@ import (
 	"fmt"
 	"go/ast"
 	"go/types"
+	"strings"
 	"unicode"
 	"unicode/utf8"
 )
@@ -23,8 +24,8 @@ func pure(f specModel) stdModel {
 
 func init() {
 	base := map[string]specModel{
-		"strings.HasPrefix": func(ec *evalCtx, a []Value) Value { return mk("str.prefixof", SBool, scalar(a[1]), scalar(a[0])) },
-		"strings.HasSuffix": func(ec *evalCtx, a []Value) Value { return mk("str.suffixof", SBool, scalar(a[1]), scalar(a[0])) },
+		"strings.HasPrefix": func(ec *evalCtx, a []Value) Value { return fixModel(ec, "PFX", "str.prefixof", scalar(a[0]), scalar(a[1])) },
+		"strings.HasSuffix": func(ec *evalCtx, a []Value) Value { return fixModel(ec, "SFX", "str.suffixof", scalar(a[0]), scalar(a[1])) },
 		"strings.Contains":  func(ec *evalCtx, a []Value) Value { return mk("str.contains", SBool, scalar(a[0]), scalar(a[1])) },
 		"strings.TrimPrefix": func(ec *evalCtx, a []Value) Value {
 			s, p := scalar(a[0]), scalar(a[1])
@@ -259,6 +260,32 @@ func modelEqualFold(ec *evalCtx, a []Value) Value {
 	if !t.IsStr() {
 		panic(unsupported("EqualFold with two non-constant arguments"))
 	}
+	if s.Op == "app" && s.Name == "url.scheme" && len(s.Args) == 1 {
+		// Scheme of a parsed URL: the lower-cased ASCII scheme prefix of the source text
+		ascii := true
+		var parts []*Re
+		for i := 0; i < len(t.Str); i++ {
+			c := t.Str[i]
+			if c >= 0x80 {
+				ascii = false
+			}
+			var set byteSet
+			set.add(c)
+			if c >= 'a' && c <= 'z' {
+				set.add(c - 'a' + 'A')
+			} else if c >= 'A' && c <= 'Z' {
+				set.add(c - 'A' + 'a')
+			}
+			parts = append(parts, reSet(set))
+		}
+		if ascii && len(t.Str) > 0 {
+			name := "GO_URL_SCHEME_" + sanitizeFile(strings.ToLower(t.Str))
+			if !ec.e().langs.Has(name) {
+				ec.e().langs.Define(name, reCat(append(parts, reByte(':'), reStar(reAny()))...), fmt.Sprintf("(code) URLs whose scheme equals %q ignoring ASCII case", t.Str))
+			}
+			return ec.e().inL(s.Args[0], name)
+		}
+	}
 	lang := ec.e().langs.Fold(t.Str)
 	return ec.e().inL(s, lang)
 }
@@ -325,3 +352,14 @@ func itoaModel(ec *evalCtx, n *Term) *Term {
 }
 
 var _ = fmt.Sprintf
+
+// fixModel: HasPrefix / HasSuffix with a constant affix are additionally
+// linked to the languages PFX_<hex> = affix .* and SFX_<hex> = .* affix.
+func fixModel(ec *evalCtx, kind, op string, s, affix *Term) *Term {
+	r := mk(op, SBool, affix, s)
+	if affix.IsStr() && !s.IsStr() && len(affix.Str) > 0 && len(affix.Str) <= 8 {
+		name := fmt.Sprintf("%s_%x", kind, affix.Str)
+		ec.st.Assume(Eq(r, ec.e().inL(s, name)))
+	}
+	return r
+}
